@@ -36,6 +36,32 @@ FIRST = {
     "C18_2": ("-", "C18.expr-placeholders"),
     "C19_1": ("-", "C19.sqrt (structure of the emitted Study-number formula)"),
     "C20_1": ("AE", "getattr default; list-of-arrays multivector as a C20.recursion representative"),
+    # ---- round 2 (ids _3, _4, _5) ----
+    "C01_4": ("-", "dict-subclass store model: a lazily filled table is read through the object (get / in / [] / iteration), "
+                   "so C01.lazy-eager compares what a CONSUMER sees, not what __missing__ returns"),
+    "C09_4": ("-", "as C01_4 (C01.lazy-eager also serves C09: a table lookup must not depend on what was looked up before)"),
+    "C02_4": ("other", "C08.key-provenance also serves C02 (the cache key must determine the key pattern the code was generated for)"),
+    "C10_3": ("caught", ""),
+    "C02_5": ("-", "C08.symbolic-operand-order: shuffled-key and reversed-key operand representatives through the real constructor"),
+    "C03_5": ("other", "C16.reflected also serves C02-C07 (a reflected dunder is one of the documented surface forms of the product)"),
+    "C06_4": ("other", "as C03_5"),
+    "C04_5": ("AE", "Python-bodied documented methods are evaluated on representative multivectors (C04.registry-names)"),
+    "C05_5": ("AE", "rp representatives whose result is a scalar; scalar-result cells in C05.rp-table"),
+    "C08_3": ("other", "C11.grade also serves C08 and C04"),
+    "C11_3": ("caught", ""),
+    "C12_4": ("other", "C19.exp-branches also serves C12"),
+    "C13_5": ("other", "C15.must-raise also serves C13"),
+    "C15_3": ("AE", "stand-in algebra takes field defaults from the dataclass definition (build_algebra)"),
+    "C16_5": ("-", "C16.operand-kinds"),
+    "C17_5": ("-", "float coefficients as representatives, compared exactly as fractions"),
+    "C19_4": ("other", "C11.python-siblings also serves C19 and C07"),
+    "C20_4": ("AE", "C20.subjects re-evaluation cell (callable subject stand-in)"),
+    "C20_5": ("-", "C20.key2idx representatives: d=4 and a custom basis"),
+    "C11_4": ("-", "written against the tree before fix F14, adapted to HEAD; this change and C12_5 are what exposed F14 "
+                   "(generated names not unique) - C09.token-atomic added, C09.name-injective/token-atomic also serve C11-C13"),
+    "C12_5": ("-", "as C11_4"),
+    "C09_5": ("caught", "written against the tree before fix F14, adapted to HEAD"),
+    "C10_4": ("caught", "written against the tree before fix F14, adapted to HEAD"),
 }
 
 rows = []
